@@ -541,6 +541,12 @@ Definition run (g : geom) (ops : list op) : Z * list (Z * list Z * list prov * Z
   if gctx g then let '(st, tr) := run_c g (c_init g) ops in (c_scan st, tr)
   else let '(st, tr) := run_s g (s_init g) ops in (scan st, tr).
 
+(* did the run ask the coefficient controller for an iMCU row past the last one?  (the implementation then
+   reads past the coefficient arrays / waits forever for input; only hazardous histories do that) *)
+Definition overread (g : geom) (ops : list op) : bool :=
+  if gctx g then gT g <? c_imcu (fst (run_c g (c_init g) ops))
+  else gT g <? imcu (fst (run_s g (s_init g) ops)).
+
 Definition ideal (g : geom) (y : Z) : prov := if gctx g then ideal_c g y else ideal_s y.
 
 (* which full-decode row a delivered provenance is (first match, preferring the expected one); -1 if none *)
